@@ -12,7 +12,7 @@
    scipy functions are (quantile / cdf / root finder). *)
 From Coq Require Import ZArith List Bool Reals Lra Lia Psatz ClassicalEpsilon.
 From Coquelicot Require Import Coquelicot.
-From GTCV Require Import Num RNum KFactor.
+From GTCV Require Import Num FNum RNum KFactor.
 From GTCV.gen Require Import Gen_reporting.
 Import ListNotations.
 Local Open Scope R_scope.
@@ -314,21 +314,6 @@ Proof. intros S. rewrite S. split; intros; lra. Qed.
 (* Part B : the regenerated function bodies at the reals                   *)
 (* ====================================================================== *)
 
-Lemma kf_Int_part_IZR z : Int_part (IZR z) = z.
-Proof.
-  unfold Int_part. rewrite <- (tech_up (IZR z) (z + 1)%Z).
-  - lia.
-  - rewrite plus_IZR; lra.
-  - rewrite plus_IZR; lra.
-Qed.
-
-Lemma kf_pow_R_2 x : pow_R x 2 = Ok (x * x).
-Proof.
-  unfold pow_R. rewrite kf_Int_part_IZR.
-  destruct (Req_EM_T 2 2) as [_|n]; [|congruence].
-  destruct (Req_EM_T x 0); simpl; f_equal; ring.
-Qed.
-
 Lemma Rleb_true a b : a <= b -> Rleb a b = true.
 Proof. intros H. unfold Rleb. destruct (Rle_dec a b); [reflexivity | contradiction]. Qed.
 Lemma Rleb_false a b : b < a -> Rleb a b = false.
@@ -433,7 +418,7 @@ Section Model.
   Qed.
 
   (* ---------------- k2_factor_sq ---------------- *)
-  (* these three hold with or without a range guard on p in the source *)
+  (* (k2_factor_sq checks p since fix C19-1; the lemmas for p in range did not need it) *)
   Lemma k2_factor_sq_small d p : d <= 1 -> k2_factor_sq (Fin d) p = Err RuntimeError.
   Proof.
     intros Hd. unfold k2_factor_sq, g_k2_factor_sq, g_inf_dof.
@@ -454,35 +439,12 @@ Section Model.
       repeat f_equal; lra.
   Qed.
 
-  (* [DEFECT-27] the next three lemmas (and k2_factor_sq_raises_iff, k2_factor_sq_p_range_refuted*
-     in Part D) describe the code AS IT IS: no hypothesis on p is needed because the source
-     has no range check on p.  With proposed_fixes/C19_1.diff applied they stop compiling and
-     are to be replaced by the block marked [AFTER-FIX-27] in Part D. *)
-  Lemma k2_factor_sq_fin d p : 1 < d <= 100000 ->
-    k2_factor_sq (Fin d) p = Ok (Fin (2 * d / (d - 1) * fdtri 2 (d - 1) (p / 100))).
-  Proof.
-    intros Hd. unfold k2_factor_sq, g_k2_factor_sq, g_inf_dof. kf_run.
-    repeat f_equal; lra.
-  Qed.
-
-  Lemma k2_factor_sq_inf_ok df p : df = PInf \/ (exists d, df = Fin d /\ 100000 < d) -> p < 100 ->
-    k2_factor_sq df p = Ok (Fin (- 2 * ln (1 - p / 100))).
-  Proof.
-    intros [->|[d [-> Hd]]] Hp; unfold k2_factor_sq, g_k2_factor_sq, g_inf_dof; kf_run;
-      repeat f_equal; lra.
-  Qed.
-
-  Lemma k2_factor_sq_inf_bad df p : df = PInf \/ (exists d, df = Fin d /\ 100000 < d) -> 100 <= p ->
-    k2_factor_sq df p = Err ValueError.
-  Proof.
-    intros [->|[d [-> Hd]]] Hp; unfold k2_factor_sq, g_k2_factor_sq, g_inf_dof; kf_run; reflexivity.
-  Qed.
 
   (* ---------------- _df_k2 and k2_to_dof ---------------- *)
   (* what the regenerated body is, structurally: one evaluation of fn at lo, then the
      bracket search over the listed upper limits *)
   Definition fnR (k2 q nu2 : R) : res R :=
-    w <- pow_R k2 2 ;; x <- R_div (w * nu2) (2 * (nu2 + 1)) ;; Ok (fdtr 2 nu2 x - q).
+    x <- R_div (k2 * k2 * nu2) (2 * (nu2 + 1)) ;; Ok (fdtr 2 nu2 x - q).
 
   Fixpoint bracket (f : R -> res R) (lo : R) (his : list R) : res (ext R) :=
     match his with
@@ -555,7 +517,7 @@ Section Model.
     Lemma fnR_val nu2 : 0 < nu2 ->
       fnR k2 q nu2 = Ok (F2cdf nu2 (K * nu2 / (2 * (nu2 + 1))) - q).
     Proof.
-      intros Hn. unfold fnR. rewrite kf_pow_R_2. cbn [bind].
+      intros Hn. unfold fnR.
       rewrite R_div_ok by lra. cbn [bind]. rewrite H_fdtr; [reflexivity | exact Hn |].
       apply Rmult_le_pos; [apply Rmult_le_pos; [nra | lra]|].
       left. apply Rinv_0_lt_compat. lra.
@@ -797,9 +759,10 @@ Section Model.
     - rewrite k_to_dof_big in H by lra. discriminate H.
   Qed.
 
-  (* [AFTER-FIX-27] replacement for the three [DEFECT-27] theorems below once k2_factor_sq
-     checks p (compiled against the patched tree when the patch was prepared):
-  Theorem k2_factor_sq_raises_iff_fixed df p :
+  (* k2_factor_sq raises RuntimeError exactly outside the documented ranges: p not in (0,100)
+     or df <= 1 (the p part holds since fix C19-1; before it p was not checked at all and
+     this theorem was refuted by (df,p) = (3,100) and (inf,150)) *)
+  Theorem k2_factor_sq_raises_iff df p :
     k2_factor_sq df p = Err RuntimeError <->
     (p <= 0 \/ 100 <= p \/ exists d, df = Fin d /\ d <= 1).
   Proof.
@@ -817,40 +780,8 @@ Section Model.
       + unfold k2_factor_sq, g_k2_factor_sq. destruct df; kf_run; reflexivity.
       + unfold k2_factor_sq, g_k2_factor_sq. destruct df; kf_run; rewrite ?orb_true_r; reflexivity.
       + apply k2_factor_sq_small. exact H.
-  Qed. *)
-
-  (* [DEFECT-27] k2_factor_sq raises RuntimeError exactly for df <= 1 -- whatever p is *)
-  Theorem k2_factor_sq_raises_iff df p :
-    k2_factor_sq df p = Err RuntimeError <-> exists d, df = Fin d /\ d <= 1.
-  Proof.
-    split.
-    - intros H. destruct df as [d|].
-      + destruct (Rle_lt_dec d 1) as [C|C]; [exists d; split; [reflexivity|exact C]|exfalso].
-        destruct (Rle_lt_dec d 100000) as [D|D].
-        * rewrite k2_factor_sq_fin in H by lra. discriminate H.
-        * destruct (Rlt_le_dec p 100) as [E|E].
-          -- rewrite k2_factor_sq_inf_ok in H; [discriminate H | right; exists d; split; [reflexivity|lra] | exact E].
-          -- rewrite k2_factor_sq_inf_bad in H; [discriminate H | right; exists d; split; [reflexivity|lra] | exact E].
-      + exfalso. destruct (Rlt_le_dec p 100) as [E|E].
-        * rewrite k2_factor_sq_inf_ok in H; [discriminate H | left; reflexivity | exact E].
-        * rewrite k2_factor_sq_inf_bad in H; [discriminate H | left; reflexivity | exact E].
-    - intros [d [-> H]]. apply k2_factor_sq_small. exact H.
   Qed.
 
-  (* [DEFECT-27] ... so the statement "arguments outside the documented ranges raise
-     RuntimeError" is false for p: defect, DESIGN section 7 #27 *)
-  Theorem k2_factor_sq_p_range_refuted :
-    exists df p, ~ (0 < p < 100) /\ k2_factor_sq df p <> Err RuntimeError.
-  Proof.
-    exists (Fin 3), 100. split; [lra|].
-    rewrite k2_factor_sq_fin by lra. discriminate.
-  Qed.
-
-  Theorem k2_factor_sq_p_range_refuted_inf :
-    exists p, ~ (0 < p < 100) /\ k2_factor_sq PInf p = Err ValueError.
-  Proof.
-    exists 150. split; [lra|]. apply k2_factor_sq_inf_bad; [left; reflexivity | lra].
-  Qed.
 
   (* ---------- k_factor is the two-sided quantile ---------- *)
   Section Quantiles.
@@ -1183,3 +1114,56 @@ Proof.
     apply Rinv_lt_contravar; [nra | exact H]. }
   lra.
 Qed.
+
+(* ====================================================================== *)
+(* Part F : binary64 facts (fixes C19-3 and C19-2)                          *)
+(* ====================================================================== *)
+(* These are about the SAME regenerated bodies evaluated over binary64 floats, for every
+   oracle table (the guards are reached before any external call). *)
+From Coq Require Import PrimFloat.
+
+Section Binary64.
+  Variables (lt : list oracle_entry) (st : list sentry).
+  Let NF := FNum lt.
+  Let OF := FScipy lt st.
+
+  (* C19-3: a NaN coverage probability or coverage factor is rejected by every function
+     (before the fix the guards `p <= 0 or p >= 100`, `k <= 0` let NaN through) *)
+  Theorem nan_p_rejected :
+    (forall df : ext float, g_k_factor NF OF df nan = Err RuntimeError) /\
+    (forall df : ext float, g_k2_factor_sq NF OF df nan = Err RuntimeError) /\
+    (forall k : float, g_k_to_dof NF OF k nan = Err RuntimeError) /\
+    (forall k2 : float, g_k2_to_dof NF OF k2 nan = Err RuntimeError).
+  Proof.
+    split; [|split; [|split]]; intros x.
+    - reflexivity.
+    - reflexivity.
+    - unfold g_k_to_dof. cbn -[PrimFloat.ltb].
+      destruct (PrimFloat.ltb PrimFloat.zero x); reflexivity.
+    - unfold g_k2_to_dof. cbn -[PrimFloat.ltb g__df_k2].
+      destruct (PrimFloat.ltb PrimFloat.zero x); reflexivity.
+  Qed.
+
+  Theorem nan_k_rejected : forall p : float,
+    g_k_to_dof NF OF nan p = Err RuntimeError /\ g_k2_to_dof NF OF nan p = Err RuntimeError.
+  Proof. intros p. split; reflexivity. Qed.
+
+  Theorem nan_df_rejected : forall p : float,
+    g_k_factor NF OF (Fin nan) p = Err RuntimeError /\ g_k2_factor_sq NF OF (Fin nan) p = Err RuntimeError.
+  Proof.
+    intros p. split.
+    - unfold g_k_factor. cbn -[PrimFloat.ltb PrimFloat.div].
+      destruct (PrimFloat.ltb _ p && PrimFloat.ltb p _)%bool; cbn -[PrimFloat.div]; [|reflexivity].
+      unfold f_div. cbn. reflexivity.
+    - unfold g_k2_factor_sq. cbn -[PrimFloat.ltb PrimFloat.div].
+      destruct (PrimFloat.ltb _ p && PrimFloat.ltb p _)%bool; cbn -[PrimFloat.div]; reflexivity.
+  Qed.
+End Binary64.
+
+(* C19-2: the square of k2 is a float product, so a huge coverage factor overflows to
+   +inf (no OverflowError) and is reported as "dof < 2": with NO libm entry at all (an empty
+   table: any use of ** would be OracleMissing) and fdtr(2, lo, +inf) = 1 *)
+Example k2_to_dof_huge_k2 :
+  g_k2_to_dof (FNum []) (FScipy [] [(S_fdtr, [2; 0x1.ff7ced916872bp-1; infinity]%float, Ok 1%float)])
+    0x1.4e718d7d7625ap+664%float 95%float = Err RuntimeError.   (* k2 = 1e200 *)
+Proof. vm_compute. reflexivity. Qed.
